@@ -59,6 +59,7 @@ theorem mono_specs : ∀ f, MonoP f ∧ MonoO f ∧ MonoI f ∧ MonoA f
       | .id s :: .comma :: ts, _ => simp [primary]
       | .id s :: .not :: ts, _ => simp [primary]
       | .id s :: .op _ :: ts, _ => simp [primary]
+      | .id s :: .sym _ :: ts, _ => simp [primary]
       | .op o :: ts, h =>
         cases o <;> simp only [primary] at h ⊢
         obtain ⟨h1, _⟩ := Res.bind_ne_na_inv h
@@ -70,6 +71,7 @@ theorem mono_specs : ∀ f, MonoP f ∧ MonoO f ∧ MonoI f ∧ MonoA f
       | [], _ => simp [primary]
       | .rp :: ts, _ => simp [primary]
       | .comma :: ts, _ => simp [primary]
+      | .sym _ :: ts, _ => simp [primary]
     have hO : MonoO (f + 1) := by
       intro lhs minP ts h
       cases ts with
@@ -93,6 +95,7 @@ theorem mono_specs : ∀ f, MonoP f ∧ MonoO f ∧ MonoI f ∧ MonoA f
         | rp => simp [outer]
         | comma => simp [outer]
         | not => simp [outer]
+        | sym a => simp [outer]
     have hI : MonoI (f + 1) := by
       intro rhs p ts h
       cases ts with
@@ -113,6 +116,7 @@ theorem mono_specs : ∀ f, MonoP f ∧ MonoO f ∧ MonoI f ∧ MonoA f
         | rp => simp [inner]
         | comma => simp [inner]
         | not => simp [inner]
+        | sym a => simp [inner]
     have hA : MonoA (f + 1) := by
       intro ts h
       simp only [params] at h ⊢
